@@ -110,6 +110,9 @@ func C10(r *vf.Run) {
 		}
 		// the name is the caller's business (a file name, usually): it says nothing about the bytes
 		name := []string{"c10", "game.sfc", "game.smc", "GAME.SWC", "x.fig", "rom.bin", "", "a.b.smc", "/tmp/dir.smc/game"}[g.Intn(9)]
+		if ss := srcStrings(); len(ss) > 0 && g.Intn(8) == 0 {
+			name = ss[g.Intn(len(ss))]
+		}
 		rom, err := newROMAnyWay(g.Intn(4), name, img)
 		if err != nil {
 			r.Fail("newrom", err.Error(), nil)
